@@ -47,4 +47,16 @@ CHECKS = {
         "level_note": "Trusted: the harness recogniser (cross-checked against encoding/json.Valid in C05) and encoding/json's verdict on what JSON cannot represent. Colorize is outside the statement.",
         "assumptions": ["encoding/json's error verdict defines 'what JSON cannot represent' for the generated values"],
     },
+    "C13": {
+        "pkg": "c13", "variants": [PLAIN],
+        "rule": ("C01's type/value generator x prefix/indent over {empty, space, tab, multi-byte, long} x colour scheme {zero, default, two marker schemes}; every case "
+                 "runs 15 variants and compares each byte-for-byte with the image of Marshal's bytes: MarshalIndent / Encoder.SetIndent = encoding/json.Indent(Marshal), "
+                 "Colorize with markers removed (and zero scheme) = Marshal, UnorderedMap = Marshal up to member order, DisableHTMLEscape = Marshal with \\u003c/3e/26 unescaped, "
+                 "Encoder = Marshal+newline, MarshalNoEscape = MarshalContext = Debug = Marshal, Marshal(&v), []interface{}{v}, struct{X interface{}}{v}, map{k:v}; error iff error. "
+                 "Non-trivial = Marshal's output nests >= 2 deep or the type has a leaf-library type; distinct by hash(type, output, prefix, indent, scheme)."),
+        "technique": "property-based metamorphic testing: byte-exact relations between go-json's own entry points/options over generated types and values (rapid)",
+        "level_text": "Randomised exploration of metamorphic relations between all encoder variants; exploration level.",
+        "level_note": "encoding/json.Indent is the trusted formatter for the indent relation (so defects of go-json's own Indent cannot mask or fake a failure). Pointer-receiver marshalers appear only behind pointers (value vs pointer legitimately differ there).",
+        "assumptions": ["colour markers use bytes that cannot occur raw in JSON output"],
+    },
 }
